@@ -793,7 +793,7 @@ class QueryBuilder(Selectable, Term):  # type:ignore[misc]
             raise QueryException("Unsupported update_field")
 
         if update_value is not None:
-            self._on_conflict_do_updates.append((field, ValueWrapper(update_value)))
+            self._on_conflict_do_updates.append((field, self.wrap_constant(update_value)))
         else:
             self._on_conflict_do_updates.append((field, None))
 
